@@ -33,6 +33,14 @@ def gen_job(st: Streams, rng, tier: str, seed: int, tnum: int, jnum: int) -> dic
     r = rng.random()
     if r < 0.25:
         return {"kind": "file", "dir": "d%d" % tnum, "val": (seed % 9000 + 1000) * 100 + tnum * 10 + jnum}
+    if r < 0.37:
+        # a directly applied function whose body is read through the call (C10's applied workload): the lookup builds
+        # a parameter scope from the formals and the supplied argument - state that belongs to this document alone
+        from . import registry
+
+        ap = registry.generate_applied(seed * 31 + tnum * 7 + jnum, tier)
+        if not reader.Doc(ap["text"]).has_error():
+            return {"kind": "text", "doc": ap["text"], "ops": [], "refs": False, "reads": [[p] for p in ap["probes"]]}
     if r < 0.6:
         # construct zoo: one construct per document with random gap shapes (also non-RFC);
         # a small tag range on purpose, so different documents share identical gap strings
@@ -91,6 +99,19 @@ def run_job(job: dict, root: str) -> list[str]:
         return out
     src = parse(job["doc"])
     out.append(src.rebuild())
+    if job.get("reads"):
+        seen_vals = []
+        for path in job["reads"]:
+            try:
+                cur = src
+                for k in path:
+                    cur = cur[k]
+                cur = getattr(cur, "value", cur)
+                seen_vals.append("/".join(path) + "=" + (cur.rebuild() if hasattr(cur, "rebuild") else repr(cur)))
+            except Exception as e:  # noqa: BLE001
+                seen_vals.append("/".join(path) + "=EXC:" + type(e).__name__)
+        # (sorted: the order of the reads is not part of the answer)
+        out.append("; ".join(sorted(seen_vals)))
     if job.get("refs"):
         for _rep in range(job.get("repeat", 1)):
             for key in ("a", "b", "v"):
@@ -180,7 +201,7 @@ def generate(seed: int, tier: str) -> dict:
         c["kind"] = "purity"
         c["engine"] = "session"
         return c
-    if r < 0.97:
+    if r < 0.93:
         # rebuild-insertion invariance: the same item operations with and without interleaved rebuild() calls
         from . import mapping
 
@@ -394,7 +415,10 @@ def execute_order(case: dict):
         second = {}
         for i in case["order"]:
             try:
-                second[i] = run_job(jobs[i], root)
+                j2 = jobs[i]
+                if j2.get("reads"):
+                    j2 = dict(j2, reads=list(reversed(j2["reads"])))
+                second[i] = run_job(j2, root)
             except Exception as e:  # noqa: BLE001
                 second[i] = "EXC:" + type(e).__name__
         for i in range(len(jobs)):
